@@ -52,7 +52,7 @@ def run_generic(PID, MODULE, PREFIX, OPS, tier, seed, what, thorough_flavours=("
                 "none, destination = source / other / NULL) with s <= %d, boundary-valued matrices, thread counts 1,2,3,5,16, plus "
                 "sampled sizes up to 2^%d; every output element compared with the O(n^2) definition on Python integers and with the "
                 "Lean model; distinct = distinct shape tuple" % (what, 4 if tier == "quick" else 6, 10 if tier == "quick" else 12))
-    res.assumptions = ["hand model Model/Ntt.lean is tied to the code on the executed shapes only",
+    res.assumptions = ["hand model Model/Ntt.lean is tied to the code by execution on the listed shapes — and ALSO by bridge theorems: the functions are regenerated from the source on every run and proved equal to the hand model (C03_generated_*), so the theorems hold for the current text, not only on the executed cases (1 <= n <= 2^30)",
                        "index arithmetic on Nat: exact for log2 n <= 30; n = 2^31, 2^32 are out of reach here (DESIGN.md §6)"]
     st = run_gen()
     standard_proof_phase(res, MODULE, PREFIX, st, ["Scalar", "NttGen"], thorough=(tier == "thorough"))
